@@ -44,7 +44,7 @@ func (c15) Cases(tier string) int {
 func (c15) Describe() core.Info {
 	return core.Info{
 		Level:          "exploration",
-		Rule:           "transform-free typed random programs in the fragment the property names (positive atoms incl. wildcards, negated atoms, equalities incl. function expressions, inequalities; linear, non-linear and mutual recursion with several derivation paths; every third case is a 'knot': 3-7 unary predicates in one strongly connected component with 1-3 rules each (a quarter of them mention one predicate twice) on a domain of 1-2 constants, so that most goals recur below themselves and the cycle cut and the memo tables are exercised), every fact of the evaluated store as goal, MaxProofs in {1,3,10}, MaxDepth in {2,8,64}; both provenance.Explain and a MemoryRecorder + BuildFromRecording; a third of the cases are programs with let/do transforms, checked in recorded mode only. Independent proof checker: every derived node's fact is the rule head under the reported bindings (completed by unifying each positive/negated body literal with its sub-proof's fact, in body order, and by binding equalities), (in)equalities hold, EDB leaves are in the store, absence leaves are not, no fact is its own ancestor; let nodes have the body atoms under the row as premises, do nodes have exactly the facts of the group. Existence: with MaxDepth 64 every stored fact of a transform-free program has a complete (non-partial) proof. IDs: a table id<->canonical content accumulated over the whole worker run must stay a bijection. The store with and without a recorder must be equal. Non-trivial: goal is derived and proof depth >= 2 or program has a recursion candidate; distinct by (program, options).",
+		Rule:           "transform-free typed random programs in the fragment the property names (positive atoms incl. wildcards, negated atoms, equalities incl. function expressions, inequalities; linear, non-linear and mutual recursion with several derivation paths; every third case is a 'knot': 3-7 unary predicates in one strongly connected component with 1-3 rules each (a quarter of them mention one predicate twice) on a domain of 1-2 constants, so that most goals recur below themselves and the cycle cut and the memo tables are exercised), every fact of the evaluated store as goal, MaxProofs in {1,3,10}, MaxDepth in {2,8,64}; both provenance.Explain and a MemoryRecorder + BuildFromRecording; a third of the cases are programs with let/do transforms, checked in recorded mode only. Independent proof checker: every derived node's fact is the rule head under the reported bindings (completed by unifying each positive/negated body literal with its sub-proof's fact, in body order, and by binding equalities), (in)equalities hold, EDB leaves are in the store, absence leaves are not, no fact is its own ancestor; let nodes have the body atoms under the row as premises, do nodes have exactly the facts of the group. Existence: with MaxDepth 64 every stored fact of a transform-free program has a complete (non-partial) proof. IDs: a table id<->canonical content accumulated over the whole worker run must stay a bijection. The store with and without a recorder must be equal. For six goals per program the question is asked again, as the first question, on a fresh copy of the recording: a fully complete proof must be found exactly when it was found after all the other goals had been asked on the original recorder (the answer is a function of recording, store, goal and options). Non-trivial: goal is derived and proof depth >= 2 or program has a recursion candidate; distinct by (program, options).",
 		Assumptions:    []string{"comparison and other built-in predicates are outside the fragment for which the property promises a proof and are not generated in the transform-free workload"},
 		PerCaseTimeout: 120e9,
 	}
@@ -630,7 +630,18 @@ func c15Exec(c c15Case, res *core.Result) (skip string, fail *c15Fail) {
 	pcPlain := &proofChecker{facts: all, pi: pi, depthOK: c.MaxDepth >= 64}
 	pcRec := &proofChecker{facts: allRec, pi: pi, depthOK: c.MaxDepth >= 64}
 	opts := provenance.Options{MaxProofs: c.MaxProofs, MaxDepth: c.MaxDepth}
+	// Questions with a tight depth limit first; their (cut) answers must leave no trace in later answers.
+	pre := 0
+	for _, k := range all.Keys() {
+		if g := all[k]; !g.Predicate.IsInternalPredicate() {
+			if pre++; pre > 4 {
+				break
+			}
+			provenance.BuildFromRecording(rec, recorded, g, provenance.Options{MaxProofs: 2, MaxDepth: 1})
+		}
+	}
 	goals := 0
+	recStrict := map[string]bool{} // (goal, MaxProofs) -> BuildFromRecording returned a proof without any Partial node
 	for _, k := range all.Keys() {
 		goal := all[k]
 		if goal.Predicate.IsInternalPredicate() {
@@ -683,6 +694,15 @@ func c15Exec(c c15Case, res *core.Result) (skip string, fail *c15Fail) {
 					return "", &c15Fail{m.name + ":too-many-proofs", fmt.Sprintf("%s returned %d proofs for MaxProofs %d", m.name, len(proofs), mp)}
 				}
 				complete := false
+				if m.name == "recorded" {
+					strict := false
+					for _, p := range proofs {
+						if !c15AnyPartial(p) {
+							strict = true
+						}
+					}
+					recStrict[fmt.Sprint(k, "/", mp)] = strict
+				}
 				for _, p := range proofs {
 					if canon.Atom(p.Fact) != canon.Atom(goal) {
 						return "", &c15Fail{m.name + ":wrong-goal", fmt.Sprintf("%s: proof for %v proves %v", m.name, goal, p.Fact)}
@@ -708,6 +728,52 @@ func c15Exec(c c15Case, res *core.Result) (skip string, fail *c15Fail) {
 				if !complete && !c.Transform && c.MaxDepth >= 64 {
 					return "", &c15Fail{m.name + ":only-partial-proofs" + c15Why(c.Prog, goal), fmt.Sprintf("%s: every proof of %v is marked Partial although the program is transform-free and the depth limit was not reached", m.name, goal)}
 				}
+			}
+		}
+	}
+	// The result of BuildFromRecording is a function of the recording, the store, the goal and the options: asking
+	// again on a fresh copy of the recording (same events, same order), as the very first question, must find a
+	// fully complete proof exactly when the question found one after all the other goals had been asked.
+	checked := 0
+	for _, k := range all.Keys() {
+		goal := all[k]
+		if goal.Predicate.IsInternalPredicate() {
+			continue
+		}
+		if checked++; checked > 6 {
+			break
+		}
+		for key, was := range recStrict {
+			var mp int
+			if !strings.HasPrefix(key, k+"/") {
+				continue
+			}
+			fmt.Sscan(strings.TrimPrefix(key, k+"/"), &mp)
+			clone := provenance.NewMemoryRecorder()
+			for _, ev := range rec.Events() {
+				switch ev.Kind {
+				case provenance.EventRule:
+					clone.RuleFired(ev.Rule, ev.Head, ev.Subst, ev.PremiseFacts)
+				case provenance.EventLet:
+					clone.LetEmit(ev.Rule, ev.Head, ev.Row, ev.Output)
+				case provenance.EventDo:
+					clone.DoEmit(ev.Rule, ev.Head, ev.GroupKey, ev.InputFacts, ev.Output)
+				}
+			}
+			fresh, ferr := provenance.BuildFromRecording(clone, recorded, goal, provenance.Options{MaxProofs: mp, MaxDepth: c.MaxDepth})
+			strict := false
+			if ferr == nil {
+				for _, p := range fresh {
+					if !c15AnyPartial(p) {
+						strict = true
+					}
+				}
+			}
+			if res != nil {
+				res.Ob("goals_asked_again_on_a_fresh_copy_of_the_recording", 1)
+			}
+			if strict != was {
+				return "", &c15Fail{"recorded:result-depends-on-earlier-calls", fmt.Sprintf("BuildFromRecording(%v, MaxProofs %d, MaxDepth %d): asked first on a fresh copy of the recording a fully complete proof is found: %v; asked after the other goals on the same recorder: %v", goal, mp, c.MaxDepth, strict, was)}
 			}
 		}
 	}
